@@ -226,3 +226,14 @@ impl StatelessCipherStates {
         self.1.rekey_manually(key);
     }
 }
+
+#[cfg(feature = "verif-hooks")]
+impl CipherState {
+    pub(crate) fn verif_from_parts(cipher: Box<dyn Cipher>, n: u64, has_key: bool) -> Self {
+        Self { cipher, n, has_key }
+    }
+
+    pub(crate) fn verif_has_key(&self) -> bool {
+        self.has_key
+    }
+}
